@@ -30,6 +30,18 @@ LocalTy(p) == CHOOSE t \in procs.tys[p] : TRUE
 \* the build links a type of the lineage (vBx links an unrelated type of the same name)
 Lin(p) == LinksTy(p) /\ KindOf(p) # "vBx"
 
+\* The registry operator Apalache proves unboundedly correct (MigInd, over sets of
+\* pairs) is the one this module explores and the traces bind to the code
+\* (ErrSystem!RegisterMigration, over functions): equal on every table over the lineage.
+MP == INSTANCE MigPure
+LNames == {"uRenA", "uRenB", "uRenC", "uRenD", "uRenQ"}
+PairsOf(t) == {<<k, t[k]>> : k \in DOMAIN t}
+SmallTables == UNION {[S -> LNames] : S \in SUBSET {"uRenA", "uRenB", "uRenC", "uRenD"}}
+ASSUME \A t \in SmallTables : \A prev \in LNames : \A new \in LNames :
+         LET r == RegisterMigration(t, prev, new, {}) IN
+         /\ PairsOf(r.tbl) = MP!Reg(PairsOf(t), prev, new)
+         /\ r.panic = ~MP!Accepted(PairsOf(t), prev, new)
+
 CONSTANT Dup    \* TRUE: also try to register an already registered target again
 
 Src3 == IF Lin(3) THEN 3 ELSE 2
